@@ -1,8 +1,8 @@
 #!/bin/bash
 # Runs every seeded change against every quick check in a scratch copy of /repo and of the harness
-# (so that /repo and /verif stay usable meanwhile). Usage: seedbatch_copy.sh <outfile> [seed-dir ...]
+# (so that /repo and /verif stay usable meanwhile). Usage: [RCOPY=dir VCOPY=dir] seedbatch_copy.sh <outfile> [seed-dir ...]
 out="$1"; shift
-R=/tmp/rcopy; V=/tmp/vcopy
+R=${RCOPY:-/tmp/rcopy}; V=${VCOPY:-/tmp/vcopy}
 rm -rf $V; git -C /repo worktree remove --force $R 2>/dev/null; git -C /repo worktree prune
 git -C /repo worktree add -q --detach $R HEAD || exit 2
 mkdir -p $V && rsync -a --exclude target /verif/harness /verif/replays /verif/known_findings.jsonl $V/ 
